@@ -29,19 +29,20 @@ EXTRACT = "extract/ExC10.v"
 OBLIGATION = "merkle-history"
 THEOREMS = ["C10_inv_init", "C10_inv_step", "C10_reachable", "C10_no_stale", "C10_fresh_unique",
             "C10_delete_keeps_other_parent", "C10_no_stale_refuted_old_remove",
-            "C10_falsy_hash_refuted", "C10_guards_satisfiable"]
+            "C10_falsy_hash_refuted_old", "C10_guards_satisfiable"]
 RULE = ("histories of 5-60 operations over <= 12 nodes (generic MerkleNode/MerkleLeaf subclass, and real "
         "from_disk Directory/Content), seeded with the proof's case splits (child shared by two structurally "
         "equal parents, replace in place, delete then re-attach, nested path keys 3 levels deep, forced update "
-        "inside a diamond, reads before/after each mutation), never creating a cycle; non-trivial = at least "
+        "inside a diamond, reads before/after each mutation, generic nodes whose hash is the falsy b''), never "
+        "creating a cycle; non-trivial = at least "
         "one successful mutation below a node that was read before and has >= 2 parents or height >= 2; "
         "distinct = distinct request line")
 TRUSTED = ["Python dict semantics as modelled in model/Merkle.v (insertion order, replace keeps position, "
            "update), list.append / identity scan of `parents`, set() hashing a node through __hash__ -> .hash",
            "compute_hash reads every child through `.hash` (true of the harness subclass and of "
            "Directory.to_model); NH abstracts the manifest/sha1 part (covered by C02/C06)"]
-ASSUMPTIONS = ["histories never create a cycle (trees and DAGs only)", "compute_hash never returns a falsy value "
-               "(b'', None, 0): with a falsy hash invalidate_hash stops early (C10_falsy_hash_refuted)",
+ASSUMPTIONS = ["histories never create a cycle (trees and DAGs only)",
+               "compute_hash never returns None (None is the 'not computed' marker); any other value, b'' included, is fine",
                "bulk update keys are plain names (non-empty, no '/')", "node.data is not reassigned after creation"]
 CASE_TIMEOUT = 30
 
@@ -54,6 +55,8 @@ def hexs(b):
 
 
 def nh(data, entries):
+    if data == b"z" and not entries:
+        return b""          # a falsy hash: the cache test must be `is None`, not truthiness
     enc = "D" + hexs(data) + "|" + ",".join(hexs(n) + ":" + hexs(d) + ":" + hexs(h) for n, d, h in entries)
     return hashlib.md5(enc.encode()).digest()
 
@@ -222,6 +225,11 @@ def scenario(rng, world, which):
     elif which == 5:    # bulk update replacing an entry by a shared child
         ops += [["S", p1, x, c], ["S", p2, x, c], ["S", root, a, p1], ["S", root, b, p2], ["H", root],
                 ["U", p1, [[x, y], [a, c]]], ["H", root], ["U", p2, [[x, c]]], ["H", root], ["D", p1, a], ["H", root]]
+    elif which == 7:    # a node whose hash is falsy (b""): generic world only
+        if world == "generic":
+            ops[0] = ["N", "n", H(b"z")]
+        ops += [["S", p1, a, c], ["S", root, a, p1], ["H", root], ["L", root], ["S", c, z, y], ["H", root], ["L", root],
+                ["D", c, z], ["H", root], ["F", c], ["H", root]]
     elif which == 6:    # collect / mutate / collect
         ops += [["S", p1, x, c], ["S", p2, x, c], ["S", root, a, p1], ["S", root, b, p2], ["L", root], ["L", root],
                 ["S", c, z, y], ["L", root], ["R", p1], ["L", root]]
@@ -244,7 +252,7 @@ def rand_op(rng, world, sh, w):
                     weights=[w.get(k, 0) for k in ["N", "S", "D", "U", "G", "C", "H", "F", "E", "M", "L", "R"]])[0]
     if n == 0 or t == "N":
         if world == "generic":
-            return ["N", rng.choice("nnnl"), H(rng.choice([b"x", b"x", b"x", b"y"]))]
+            return ["N", rng.choice("nnnl"), H(rng.choice([b"x", b"x", b"x", b"y", b"z", b"z"]))]
         if rng.random() < 0.6:
             return ["N", "d", H(rng.choice([b"", b"", b"q"]))]
         return ["N", "c", H(rng.choice([b"644:A", b"644:A", b"755:A", b"644:", b"644:B"]))]
@@ -279,7 +287,7 @@ def rand_op(rng, world, sh, w):
 WEIGHTS_C10 = {"N": 3, "S": 8, "D": 4, "U": 2, "G": 1, "C": 1, "H": 6, "F": 2, "E": 1, "M": 1, "L": 1, "R": 0.5}
 
 
-def gen_case(rng, world, nops, weights, nscen=6, readall=None):
+def gen_case(rng, world, nops, weights, nscen=8, readall=None):
     sh = Shadow()
     ops = []
     if rng.random() < 0.6:
@@ -313,7 +321,7 @@ def gen_case(rng, world, nops, weights, nscen=6, readall=None):
     return {"world": world, "ops": ops, "by_id": 1}
 
 
-def gen(rng, tier, weights=WEIGHTS_C10, nscen=6):
+def gen(rng, tier, weights=WEIGHTS_C10, nscen=8):
     n_cases = 1500 if tier == "quick" else 30000
     cases = []
     for k in range(n_cases):
@@ -539,7 +547,7 @@ def impl(c):
         # the property, without touching any cache: a set private hash must be the from-scratch hash
         for i, nd in enumerate(nodes):
             ch = getattr(nd, "_MerkleNode__hash", None)
-            if ch:
+            if ch is not None:
                 try:
                     want = scratch_real(nd)
                 except RecursionError:
@@ -567,7 +575,7 @@ def enc_op(op):
 
 
 def requests(c):
-    return ["run %d %s" % (c.get("by_id", 1), ";".join(enc_op(op) for op in c["ops"]))]
+    return ["run %d %d %s" % (c.get("by_id", 1), c.get("old_truthy", 0), ";".join(enc_op(op) for op in c["ops"]))]
 
 
 def canon_model_tok(tok):
